@@ -270,7 +270,11 @@ def run_malformed_unit(ex, H, unit, res):
             # a wildcard binding on a symbolic port, so that well-formed datagrams would be delivered
             bport = sym_int('bport', 16)
             ex.call('Udp::listen', [Ref(udp, 'u'), Agg('TypeId', {0: appid}), Agg('Endpoint', {0: ipaddr_of_u32(ex, U32(0)), 1: bport}), clone_val(machine)])
-            iph = H.make('ip', U16(20 + n), U16(0), False, sym_int('ipid', 16), ipaddr_of_u32(ex, sym_int('src', 32)), ipaddr_of_u32(ex, sym_int('dst', 32)), Int(8, 17), sym_int('ttl', 8))
+            # the IPv4 header in the context may announce any total length (a frame cut short or padded after the IP layer parsed it):
+            # what decides is the number of bytes actually handed to UDP
+            iptl = sym_int('iptl', 16)
+            ex.assume(ex.binop('Ge', iptl, U16(20), False))
+            iph = H.make('ip', iptl, U16(0), False, sym_int('ipid', 16), ipaddr_of_u32(ex, sym_int('src', 32)), ipaddr_of_u32(ex, sym_int('dst', 32)), Int(8, 17), sym_int('ttl', 8))
             ex.call('Control::insert::<Ipv4Header>', [Ref(ch, 'c'), clone_val(iph)])
             before = len(udp['u'].f[0].items)
             r = ex.call('<Udp as Protocol>::demux', [Ref(udp, 'u'), msg, caller, ch['c'], clone_val(machine)])
